@@ -247,9 +247,15 @@ TI_TEXT = ("[header]\nversion = 1.2\ntype = productmd.treeinfo\n\n[release]\nnam
 
 TI_LEGACY_TEXT = ("[general]\nfamily = Spacewalk\nversion = 2.1\nname = Spacewalk-2.1\narch = x86_64\ntimestamp = 1\nvariant = Server\n"
                   "packagedir = Packages\nrepository = .\n\n")
+TYPE_NAMES = sorted(set(list(hashlib.algorithms_available) + ["SHA256", "Md5", "crc32", "whirlpool", "sha512_256", "sm3", "ripemd160",
+                                                                "blake2b", "sha3_256", "gost", "x"]))
+TYPE_NAMES = [t for t in TYPE_NAMES if ":" not in t and "=" not in t and t == t.strip()]
 REAL_NAMES = ["images/boot.iso", "images/pxeboot/vmlinuz", "images/pxeboot/initrd.img", "LiveOS/squashfs.img", "vmlinuz", "initrd.img",
               # relative paths with an 'os' directory in them (the legacy reader cuts ABSOLUTE paths after /os/)
-              "xen/os/vmlinuz", "os/vmlinuz", "a/os/b/os/initrd.img", "x86_64/os/images/boot.iso", "repodata/repomd.xml"]
+              "xen/os/vmlinuz", "os/vmlinuz", "a/os/b/os/initrd.img", "x86_64/os/images/boot.iso", "repodata/repomd.xml",
+              # names with characters that mean something to URL / shell / ini tooling - and their decoded look-alikes
+              "images/Fedora%20Live.iso", "images/Fedora Live.iso", "images/rescue%2Fdisk.img", "images/rescue/disk.img", "images/100%.img",
+              "a+b.img", "a b.img", "a%2Bb.img", "images/boot.iso;1", "images/#boot.iso"]
 
 
 def gen_section(rng, force=None):
@@ -272,8 +278,9 @@ def gen_section(rng, force=None):
     out = []
     for name, kind in entries:
         if kind == "typed":
-            t = rng.choice(["sha256", "md5", "sha1", "sha512", "sha384"])
-            v = text.chars(rng, HEX, 8, 128)
+            # the algorithm NAME is free text to the reader: whatever the file says, with whatever digest length
+            t = rng.choice(["sha256", "md5", "sha1", "sha512", "sha384"] + TYPE_NAMES)
+            v = text.chars(rng, HEX, 8, 128) if rng.random() < 0.5 else text.chars(rng, HEX, *([rng.choice([32, 40, 64])] * 2))
             out.append({"path": name, "kind": kind, "line": "%s:%s" % (t, v), "expect": [t, v]})
         elif kind == "bare-good":
             ln = rng.choice(sorted(BARE_GOOD))
